@@ -673,8 +673,16 @@ def oracle_c04(plan, world, cl, ctx):
                             {"member": cid, "tp": list(tp), "offset": c})
             continue
         cb, end = wins[-1]
-        ds = sorted(d[2] for d in m.deliveries if d[1] == tp and cb["begin"] < d[0] < sw)
-        cands = {v for k, v in _starts_for(served, cid, tp, cb["lo"], sw)}
+        # "Handed to the application" is not tied to the current incarnation of the
+        # assignment: commit() without arguments issued in one generation is retried by
+        # the consumer through a rebalance and may be accepted under the member's next
+        # generation; the records below it were handed out by this same consumer
+        # before the call.  So deliveries of all of this member's incarnations before
+        # the commit was written count, from any start position the brokers served it.
+        ds = sorted(d[2] for d in m.deliveries if d[1] == tp and d[0] < sw)
+        cands = {v for k, v in _starts_for(served, cid, tp, 0, sw)}
+        if not any(cb["begin"] < d[0] < sw for d in m.deliveries if d[1] == tp):
+            world.probe("commit_accepted_in_later_incarnation")
         if getattr(m, "seeked", False):
             cands.add(cl.partition(*tp).log_start)
         part = cl.partition(*tp)
@@ -765,7 +773,17 @@ def oracle_c05(plan, world, cl, ctx):
                 continue  # member died / was superseded before adopting
             assigned_begin[cid] = cb["begin"]
             want = sorted(assigns.get(mid, set()))
-            if cb["tps"] != want or cb["snapshot"] != want or cb.get("snapshot_after", want) != want:
+            after = cb.get("snapshot_after", want)
+            if m.spec.get("pattern") and after != want and any(
+                    e[2] == "topic_create" and e[0] < (cb["end"] or 10**12) and e[1] > world.t0
+                    for e in world.log.events if e[2] == "topic_create"):
+                # a pattern subscription is replaced as soon as a metadata refresh shows a
+                # new matching topic; if that happens while the callback is still
+                # running, assignment() is empty until the rejoin ("pattern matches
+                # appearing during a rebalance"): only the state at the start is judged
+                world.probe("pattern_subscription_replaced_during_callback")
+                after = want
+            if cb["tps"] != want or cb["snapshot"] != want or after != want:
                 if not any(s > sync_ok[cid] and s < (cb["end"] or 10**12) for s in m.sub_changes):
                     world.violation("C05", "adopted_assignment_differs_from_distributed", {
                         "generation": g, "member": cid, "distributed": want, "callback": cb["tps"],
